@@ -106,6 +106,27 @@ func TourC09() []TourCase {
 			b.Slot(4, 8, 2, 1).Att(0, 4, 8).Head().Att(3, 6, 8).Head()
 			return b.c
 		}},
+		{"finalization-advances-on-the-same-root", func(t *rapid.T) *Case {
+			// no block for more than an epoch after the anchor: the checkpoints of epochs 1 (and 2) are gap-slot nodes of the
+			// anchor's own root, so finalization advances while its ROOT stays the same; votes on earlier gap nodes and a
+			// block built on the root afterwards then decide the head from the new start node
+			b := NewB(t, "ok", 0, nil)
+			b.c.Cfg.Bal = bals(b, 4)
+			last := uint64(8 + b.uni(3, "last"))
+			b.Slot(1, last, 0, 0).Att(0, 1, last).Att(1, 1, 2).Head()
+			if b.uni(3, "early_fork") > 0 {
+				// a block that leaves the root's gap chain BEFORE the checkpoint slot, carrying the heaviest vote: it stops
+				// being a candidate the moment finalization advances to the gap-slot checkpoint of the same root
+				b.Block(1, 5, uint64(1+b.uni(3, "fork_slot")), 0, 0).Att(3, 5, 3).Att(2, 5, 3).Head()
+			}
+			b.Upd(1, Cp{1, 1}, Cp{1, 1}, nil).Head()
+			b.Block(1, 2, last+1, 1, 1).Head().Att(2, 2, last+1).Head()
+			if b.uni(2, "second") == 1 {
+				b.Upd(1, Cp{1, 2}, Cp{1, 2}, nil).Head().Block(1, 3, last+2, 2, 2).Att(3, 3, last+2).Head()
+			}
+			b.Block(2, 4, last+3, 1, 1).Att(0, 4, last+3).Head()
+			return b.c
+		}},
 		{"head-on-gap-slot-node", func(t *rapid.T) *Case {
 			b := NewB(t, "ok", 0, []uint64{1, 1, 1, 1})
 			n := uint64(2 + b.uni(3, "n"))
